@@ -28,6 +28,11 @@ class Conflict:
         self.what = what
 
 
+ELEMENTWISE_1 = {"abs", "absolute", "fabs", "sqrt", "exp", "log", "log10", "log2", "sin", "cos", "tan", "arcsin", "arccos",
+                 "arctan", "degrees", "radians", "deg2rad", "rad2deg", "square", "reciprocal", "negative", "sign",
+                 "floor", "ceil", "sinh", "cosh", "tanh", "float64", "float32", "asarray", "copy", "clip", "nan_to_num"}
+
+
 class LenClass:
     def __init__(self, interp, seeds: Dict[int, tuple] = None, rowwise_select_funcs=()):
         """rowwise_select_funcs: qualnames of functions in which a 2-D boolean mask selects
@@ -148,6 +153,84 @@ class LenClass:
             c = self.join(c, self.of(a), node, what)
         return c
 
+    # ------------------------------------------------------------------ events-by-k arrays
+    def _array_root(self, n: Node, depth=0) -> Node:
+        """the array a selection / updated version was taken from"""
+        for _ in range(12):
+            if n.op == "Subscript" and self.is_masklike(n.args[1]):
+                n = n.args[0]
+            elif n.op == "Scatter":
+                n = n.args[0]
+            else:
+                break
+        return n
+
+    def collect_matrix_evidence(self, root: Node):
+        """Arrays that the code itself treats as events-by-k matrices with the event axis FIRST: whatever is
+        transposed before it is combined with a per-event vector ((x.T * v).T), or gets an axis added behind the
+        event axis.  Recorded by value number of the array the transposed value was selected from."""
+        from ..ir import walk
+        ev = getattr(self, "matrix_vns", None)
+        if ev is None:
+            ev = self.matrix_vns = set()
+        for n in walk([root]):
+            x = None
+            if n.op == "Attr" and n.attr == "T":
+                x = n.args[0]
+            elif n.op == "Call" and n.args and n.args[0].op == "Ext" and n.args[0].attr in (
+                    "numpy.transpose", "numpy.swapaxes") and len(n.args) >= 2:
+                x = n.args[1]
+            elif n.op == "MCall" and n.attr[0] in ("transpose", "swapaxes") and n.args:
+                x = n.args[0]
+            if x is None:
+                continue
+            if x.op == "BinOp" or (x.op == "Attr" and x.attr == "T"):
+                continue            # (a.T * v).T: the inner product is events-last; its transpose proves nothing new
+            ev.add(self.g.vn(x))
+            ev.add(self.g.vn(self._array_root(x)))
+
+    def _is_matrix(self, n: Node, depth=0) -> bool:
+        ev = getattr(self, "matrix_vns", None)
+        if not ev or depth > 8:
+            return False
+        if self.g.vn(n) in ev or self.g.vn(self._array_root(n)) in ev:
+            return True
+        if n.op == "Phi":
+            return any(self._is_matrix(a, depth + 1) for a in n.args[1:])
+        return False
+
+    def _is_vector(self, n: Node, depth=0) -> bool:
+        """provably one value per event in a 1-D array: a seeded per-event column, selections of it, and element-wise
+        arithmetic / functions of such values and scalars"""
+        if depth > 20 or self._is_matrix(n):
+            return False
+        if n.id in self.seeded:
+            return is_def(self.memo.get(n.id, TOP)) and self.memo[n.id][0] != "ROWS"
+        if n.op == "Subscript" and self.is_masklike(n.args[1]):
+            return self._is_vector(n.args[0], depth + 1)
+        if n.op in ("BinOp", "Compare", "BoolOp", "UnaryOp"):
+            cs = [self.of(a) for a in n.args]
+            return any(is_def(c) for c in cs) and all(
+                self._is_vector(a, depth + 1) if is_def(c) else c == S for a, c in zip(n.args, cs))
+        if n.op == "Call" and n.args and n.args[0].op == "Ext" and n.args[0].attr.startswith(("numpy.", "math.")) and \
+                n.args[0].attr.split(".")[-1] in ELEMENTWISE_1:
+            return len(n.args) >= 2 and self._is_vector(n.args[1], depth + 1)
+        return False
+
+    def _axis_alignment(self, n: Node, c):
+        """x * v with x an events-by-k matrix (event axis first) and v one value per event: numpy aligns v with the LAST
+        axis of x (it raises unless k happens to equal the number of events, and then scales event i, bin j by the
+        factor of event j)"""
+        if not getattr(self, "matrix_vns", None):
+            return
+        a, b = n.args
+        for m_, v_ in ((a, b), (b, a)):
+            if self._is_matrix(m_) and not (m_.op == "Attr" and m_.attr == "T") and self._is_vector(v_):
+                self.conflicts.append(Conflict(n, self.of(m_), self.of(v_),
+                                               "a per-event vector is combined with an events-by-k array along its last "
+                                               "axis (x * v[:, None] or (x.T * v).T aligns it with the events)"))
+                return
+
     def count_of(self, n: Node) -> Optional[tuple]:
         """class whose size n denotes: len(x), x.size, x.shape[0], x.shape"""
         if n.op == "Len":
@@ -195,7 +278,10 @@ class LenClass:
         if op in ("Input", "State", "Unknown", "Undefined"):
             return TOP
         if op in ("BinOp", "Compare", "BoolOp"):
-            return self._joinall(n.args, n)
+            c = self._joinall(n.args, n)
+            if len(n.args) == 2 and is_def(c):
+                self._axis_alignment(n, c)
+            return c
         if op == "UnaryOp":
             return self.of(n.args[0])
         if op == "Phi":
